@@ -87,6 +87,16 @@ theorem accumulation_identities (L br : Int) (evs : List (Bool × Int × Int)) (
   apply runVotes_acc L br evs p (-1) hL hp _ hv
   rw [hinit, show L - (-1) = L + 1 by omega]; exact Int.le_refl _
 
+/-- Accumulation identity, voter side (`Voter.ApplyVoting` + `Voter.ApplyEvent` as driven by
+    `processVoterReward`), for every input, voter `v` and P-Rep `k`: the accumulated votes `v` holds for
+    `k` are (base delegation + base bond to `k`)·(L+1) + Σ over v's vote events of (votes to k)·(L − offset)
+    — the same terms `PRep.ApplyVote` adds to `accumulatedVoted` (`accumulation_identities`). -/
+theorem voter_accumulation_identity (i : Input) (v k : Nat) :
+    votesTo k (voterAV i v) =
+      (votesTo k (lookupVotes i.delegating v) + votesTo k (lookupVotes i.bonding v)) * ((i.offsetLimit : Int) + 1) +
+      evSum k (i.offsetLimit : Int) (eventsOf i.events v) :=
+  voterAV_votesTo i v k
+
 /-- FULL STATEMENT (what the property asks): for every input (voting history of a term) for which
     `Calculate` succeeds, the total I-Score credited is at most the term's budget.
     PARTIAL: proved under `TermWF i`, five facts about the state *after* `processEvents`
